@@ -16,105 +16,13 @@ COMMON_NOTE = (
     "attrs semantics of the constructs the hand model transcribes. "
 )
 
-# property -> (text, technique, note, design_ref)
-CLAIMS = {
-    "C10": (
-        "Lean theorems over ALL label lists (any element type with decidable equality): success iff the conventions name "
-        "the same functions once each; pointwise spec (position + sign product); permutation; reverse = opposite "
-        "direction; there-and-back = identity; A->B->C = A->C; basis level = shifted block concatenation; every built-in "
-        "table (regenerated from source each run) well-formed and pairwise convertible by kernel evaluation. The model is "
-        "tied to convert.py by a line-protocol correspondence (random + all built-in pairs + corruptions) and a direct "
-        "search on the real code.",
-        "Lean 4 proof (induction / list lemmas / decide +kernel over generated tables) + model-vs-code correspondence",
-        "Modelled: str.startswith/lstrip/index/set semantics; numpy fancy indexing.",
-        "DESIGN.md §5 C10",
-    ),
-    "C20": (
-        "Lean theorems: set_four_index_element writes exactly the orbit of (i,j,k,l) under the group generated by the "
-        "electron swap and the two real-orbital swaps, for arrays of ANY size and all indices (the eight index patterns "
-        "are re-extracted from utils.py each run and shown to be a closed group of 8 permutations), nothing else is "
-        "touched, symmetric arrays stay symmetric; volume over exact rationals is non-negative, its square is the Gram "
-        "determinant for 1, 2 and 3 vectors, and it is invariant under every permutation and sign flip of the vectors; "
-        "check_dm accepts exactly occupation lists inside [-eps, occ_max+eps]; strtobool with the STRTOBOOL table found "
-        "in the source accepts exactly the 12 documented words under ASCII case folding. derive_naturals is proved "
-        "(Mathlib matrices over any field) only relative to the eigen-solver contract: S-orthonormal columns, generalized "
-        "eigenvalues, C diag(n) C^T = D; LAPACK itself is exercised numerically (sizes 1-12, degenerate/zero occupations). "
-        "Model tied to utils.py by line-protocol correspondence (four exhaustive for n<=4/6, vol exact rationals incl. "
-        "all permutations/flips, strtobool all case variants + edits + non-ASCII, check_dm on exact thresholds) and a "
-        "direct search on the real code.",
-        "Lean 4 proof (induction, ring/linarith over Rat, Mathlib Matrix algebra, decide +kernel over generated tables) "
-        "+ model-vs-code correspondence; derive_naturals partial (eigen-solver modelled by its contract)",
-        "Modelled: numpy item assignment, np.linalg.norm/cross/det up to a forward-error bound, str.lower as ASCII "
-        "folding (checked: no non-ASCII character folds into the vocabulary), scipy.linalg.eigh by contract.",
-        "DESIGN.md §5 C20",
-    ),
-    "C17": (
-        "Lean theorems for EVERY registry, file name and operation: an explicit format makes the result independent of "
-        "the file name and is the registered module iff it supports the operation; otherwise the result is the first "
-        "module in registry order with a pattern matching the base name (glob matcher proved equivalent to an inductive "
-        "'* = any run of characters' relation) that supports the operation, it does match and support, an error is "
-        "raised iff no module does both, every error is FileFormatError, the result depends on the base name only "
-        "(directories irrelevant). Over the registry regenerated from /repo each run (decide +kernel): module names "
-        "strictly sorted/unique, patterns inside the modelled fnmatch subset, every declared guaranteed/ifpresent name "
-        "is an IOData.__init__ keyword and every required/optional name is readable on IOData, every entry point has "
-        "declared lists, CLI help lists exactly the modules having each entry point. Tie: exhaustive select stream "
-        "(~375k calls: corpus names, pattern instantiations incl. cross-pattern names, case variants, directories with "
-        "pattern text, 5 operations, every explicit format) with a file-system trap; search: guaranteed attributes on "
-        "every loadable corpus file (load_one/load_many) and on files generated from them, required attributes enforced "
-        "as PrepareDumpError before open() for every dump function and required name.",
-        "Lean 4 proof (list lemmas, inductive glob relation, decide +kernel over the generated registry) + exhaustive "
-        "model-vs-code correspondence + corpus search",
-        "Modelled: fnmatch for literal/'*' patterns on POSIX, os.path.basename, hasattr for the operation names. "
-        "'guaranteed => set' and 'required enforced before open' are established by search on the corpus, not by a "
-        "Lean reader/flow model (those belong to C07/C08).",
-        "DESIGN.md §5 C17",
-    ),
-    "C19": (
-        "Lean theorems at character level for ALL molecules, templates and keyword arguments: the geometry block "
-        "exists iff every atom has a symbol and is then the atoms' lines, one per atom, in order (induction); splitting "
-        "the block at newlines returns exactly those lines; an atom line is num2sym[atnum] in 3 columns plus three "
-        "10.6f fields; field precedence geometry > kwargs > program defaults > object-derived fields; title default, "
-        "spinmult = |round(spinpol)|+1, charge = round-half-even (rounding function proved: within 1/2, ties to even); "
-        "lot/basis of the object or the program default, run type lower-cased through the keyword table or an error; "
-        "unknown program <=> FileFormatError, every rendering failure <=> WriteInputError, no other class; with the "
-        "default templates of both programs (regenerated from source) the rendered text has the documented layout for "
-        "all field values. Over Gen (decide +kernel): num2sym = 1..118 with 1-2 letter symbols, keyword maps/defaults "
-        "as documented, atom-line f-string layout with division by angstrom. Tie: byte-exact input stream (1-200 atoms, "
-        "all elements, ties/negative/absent charge and spin, every run type, random templates/kwargs, both programs, "
-        "unknown programs) and a direct search parsing the written files.",
-        "Lean 4 proof (induction over atom lists, association-list lemmas, Rat floor lemmas, simp evaluation of the "
-        "formatter on the generated templates, decide +kernel over generated tables) + byte-exact correspondence",
-        "Modelled: str.format restricted to plain {name}/{{/}} fields; '%.6f' of k/1e6 for integer k (|k|<1e10); "
-        "custom atom_line callbacks and orbital-derived charge/spin are not modelled (values are read back from the "
-        "object).",
-        "DESIGN.md §5 C19",
-    ),
-}
-
-CLAIMS["C09"] = (
-    "Lean: (1) the effect summary regenerated from /repo's source on every run (ast may-alias analysis of every iodata "
-    "function reachable from dump_one/dump_many/write_input) contains no store, in-place operation or mutating call "
-    "rooted at the caller's objects outside a reviewed 3-entry list (decide over Gen/Effects); (2) frame lemma over an "
-    "abstract heap for programs of any length. The summary's completeness is cross-checked on every run by deep "
-    "snapshots (array bytes, dict contents, derived properties, member identities) around every dump of ~200 corpus and "
-    "hand-built objects x 13 formats x allow_changes, dump_many and both input writers, twice in a row; returned-object "
-    "identity, announced conversions and numerical equivalence of converted wavefunctions are checked on the real code.",
-    "Lean 4 proof over a source-extracted effect summary (translator) + frame lemma; dynamic deep-snapshot search",
-    "Trusted-but-cross-checked: completeness of the static alias analysis (harness/vh/effects.py). Equivalence of "
-    "converted objects is numerical (search), the algebraic statement is C14's.",
-    "DESIGN.md §5 C09",
-)
-CLAIMS["C16"] = (
-    "Lean: (1) the effect summary regenerated from /repo's source on every run contains no store/in-place operation/"
-    "mutating call rooted at a module-level table (decide over Gen/Effects; empty allowed list); (2) for every history "
-    "(any permutation, repetition or interleaving of atomic calls) of read-only calls the shared state is unchanged and "
-    "each call returns what it returns alone (induction over the history), with a witness that the hypothesis is needed. "
-    "Cross-check on the real code: a pool of ~120-700 API calls run alone in fresh interpreters vs shuffled/repeated "
-    "sequential histories vs 2-16 threads (switch interval 1e-6), plus snapshots of all ~150 module-level tables.",
-    "Lean 4 proof over a source-extracted effect summary (translator) + induction over histories; dynamic search",
-    "Atomicity of a call w.r.t. shared state is the model's abstraction; warning delivery under threads not covered.",
-    "DESIGN.md §5 C16",
-)
+# claims live in harness/claims/Cxx.json: {"property","text","technique","note","design_ref"}
+CLAIMS = {}
+_cdir = os.path.join(HERE, "claims")
+for _f in sorted(os.listdir(_cdir)) if os.path.isdir(_cdir) else []:
+    if _f.endswith(".json"):
+        _c = json.load(open(os.path.join(_cdir, _f)))
+        CLAIMS[_c["property"]] = (_c["text"], _c["technique"], _c["note"], _c["design_ref"])
 
 NOT_YET = {}
 
